@@ -5,21 +5,47 @@ State  = the list of all formulas created so far on the path (operands included)
 Events = r=s+g, r=n*s, s+=g, r=formula(s), r=formula(s.atoms), r=s+t, s+=t over live formulas s,t
          and fresh base operands g.
 Oracle = after every transition: the new/modified formula has reference atoms, mass, charge and
-         mass fractions; every other live formula's structure is identical to its snapshot."""
+         mass fractions; every other live formula's structure is identical to its snapshot.
+
+String derivations (second component): "built from a string" is enumerated by DERIVATION, not by a
+hand-picked list: a derivation tree  element = atom token x own count,  implicit group = leading
+count x 1..3 adjacent elements,  explicit group = '(' composite ')' x group count,  composite =
+groups joined by '', ' ', '+' or ' + '  is rendered to text by this module and weighed by this module
+(exact Fractions); the library parses the text.  Every tree of the tier lists (class STR_TIERS) is
+run; the single groups are also the roots of a depth-1 operator walk.  A wrong string is attributed to
+its smallest sub-derivation that is wrong on its own; the signature names that shape (atoms
+abstracted): 'atoms:str:nXm' = leading count in front of one element carrying its own count."""
 from fractions import Fraction
 from .. import explore
 from ..common import Acc, load_pt, close, chunks, rotate, jdump
 
 META = dict(
     level="model_checking", engine="E1",
-    rule=("breadth-first exploration of the operator graph over formulas built by every "
+    rule=("(1) breadth-first exploration of the operator graph over formulas built by every "
           "constructor kind; a state is the tuple of all live formulas (structure + alias pattern); "
-          "non-trivial = reached by >= 1 operator"),
+          "non-trivial = reached by >= 1 operator.  (2) string derivations: every derivation tree of the "
+          "tier lists (element = atom token x own count; implicit group = leading count x adjacent elements; "
+          "explicit group = parenthesised composite x group count, nested twice; composite = groups joined by "
+          "'', ' ', '+', ' + '), each tree rendered to text and weighed by the module, parsed by the library; "
+          "distinct = distinct text; non-trivial = at least one written count or two parts.  Every single-group "
+          "string (bare and parenthesised) is also the root of a depth-1 operator walk."),
     bound=dict(quick="all operator sequences of depth <= 2 over the full alphabet and depth 3 over the "
-                     "reduced operand alphabet", thorough="all operator sequences of depth <= 3 over the "
-                     "full alphabet, depth 4 over the reduced one, second atom alphabet (T, isotope ions)"),
+                     "reduced operand alphabet; string derivations: lists of STR_TIERS['quick'] - leading count "
+                     "{-, 2, 0.5, 3} x 8 atom tokens (element, D, isotope, ions, isotope ion) x own count {-, 2, 0.5} "
+                     "for one and two elements per group in full, two groups x 3 separators, parenthesised and "
+                     "twice nested forms over reduced alphabets",
+               thorough="all operator sequences of depth <= 3 over the "
+                        "full alphabet, depth 4 over the reduced one, second atom alphabet (T, isotope ions); string "
+                        "derivations: STR_TIERS['thorough'] (count spellings 3, 1.5, 10, '.5' added, three elements per "
+                        "group, larger reduced alphabets) over both atom alphabets"),
     assumptions=["neutral element / isotope masses are read from the library (their correctness is C06)",
-                 "multipliers are dyadic rationals, so exact Fraction counts equal float counts to 1e-12"],
+                 "multipliers are dyadic rationals, so exact Fraction counts equal float counts to 1e-12",
+                 "strings: 'n X_m' is n times the part 'X_m'; a leading count belongs to the adjacent elements that "
+                 "follow it up to the next separator, parenthesis or white space (the library's documented grouping rule)",
+                 "strings left out because the text does not say how they split into parts: an unseparated group after "
+                 "a group with a leading count ('2H2(OH)'), a leading count directly after ')' or after ') ' without a "
+                 "group count ('(HO)2H' is generated only as group count; '(HO) 2H' is not generated), a space between a "
+                 "count and its element, mixtures ('%wt', '//') and density tags (C11, C12)"],
 )
 
 MULTS = (0, 0.5, 1, 2, 3, 2.5)
@@ -114,6 +140,236 @@ class Bases(object):
         return s + (".ion[%d]" % q if q else "")
 
 
+# ---------------------------------------------------------------- string derivations
+# atom key (see _env) -> the token this module writes for it; written by hand, not printed by the library
+TOK = {0: dict(H="H", O="O", D="D", O18="O[18]", Fe2="Fe{2+}", Fe56_3="Fe[56]{3+}", Clm="Cl{-}", Fe3="Fe{3+}"),
+       1: dict(H="T", O="C[13]", D="H[1]", O18="O[16]{2-}", Fe2="Fe[54]{2+}", Fe56_3="Fe{3+}", Clm="D{+}",
+               Fe3="Fe[54]{3+}")}
+ALL8 = ("H", "O", "D", "O18", "Fe2", "Fe56_3", "Clm", "Fe3")
+KINDS5 = ("H", "O18", "Fe2", "Fe56_3", "Fe3")    # element, isotope, ion, isotope ion, + an ion differing only in charge / isotope
+KINDS4 = ("H", "O18", "Fe2", "Fe56_3")
+KINDS2 = ("H", "Fe56_3")
+SEPS3 = (" ", "+", " + ")
+
+# A tree is a nested tuple (JSON-able):
+#   ("e", atomkey, m)            element with its own count text m ("" = none written)
+#   ("i", n, (e, ...))           implicit group: leading count text n, adjacent elements
+#   ("x", (g, ...), (sep, ...), c)   explicit group: parenthesised composite, group count text c
+#   ("c", (g, ...), (sep, ...))  composite (top level): groups joined by the separators
+
+
+def t_text(tree, tok):
+    k = tree[0]
+    if k == "e":
+        return tok[tree[1]] + tree[2]
+    if k == "i":
+        return tree[1] + "".join(t_text(e, tok) for e in tree[2])
+    if k == "x":
+        return "(" + _join(tree[1], tree[2], tok) + ")" + tree[3]
+    if k == "c":
+        return _join(tree[1], tree[2], tok)
+    raise ValueError(tree)
+
+
+def _join(groups, seps, tok):
+    out = t_text(groups[0], tok)
+    for sep, g in zip(seps, groups[1:]):
+        out += sep + t_text(g, tok)
+    return out
+
+
+def t_count(tree):
+    """Reference weight of a derivation: {atomkey: Fraction}; a written count multiplies the part it is written on."""
+    k = tree[0]
+    if k == "e":
+        return {tree[1]: Fraction(tree[2]) if tree[2] else Fraction(1)}
+    if k == "i":
+        n = Fraction(tree[1]) if tree[1] else Fraction(1)
+        return _rmul(_rsum(t_count(e) for e in tree[2]), n)
+    if k == "x":
+        c = Fraction(tree[3]) if tree[3] else Fraction(1)
+        return _rmul(_rsum(t_count(g) for g in tree[1]), c)
+    if k == "c":
+        return _rsum(t_count(g) for g in tree[1])
+    raise ValueError(tree)
+
+
+def _rsum(parts):
+    out = {}
+    for p in parts:
+        for k, v in p.items():
+            out[k] = out.get(k, 0) + v
+    return out
+
+
+def t_shape(tree):
+    """The shape of a derivation with the atoms and the count values abstracted (signature class)."""
+    k = tree[0]
+    if k == "e":
+        return "X" + ("m" if tree[2] else "")
+    if k == "i":
+        if len(tree[2]) > 1:         # several adjacent elements: one class, 'm' if any of them carries a count
+            return ("n" if tree[1] else "") + "XX" + ("m" if any(e[2] for e in tree[2]) else "")
+        return ("n" if tree[1] else "") + t_shape(tree[2][0])
+    if k in ("x", "c"):
+        out = t_shape(tree[1][0])
+        for sep, g in zip(tree[2], tree[1][1:]):
+            out += sep.replace(" ", "_") + t_shape(g)
+        return "(" + out + ")" + ("c" if tree[3] else "") if k == "x" else out
+    raise ValueError(tree)
+
+
+def t_subtrees(tree):
+    """Proper sub-derivations that are strings of the space on their own, smallest last."""
+    k = tree[0]
+    if k == "e":
+        return []
+    if k == "i":
+        subs = [("i", "", (e,)) for e in tree[2]] if (tree[1] or len(tree[2]) > 1) else []
+        if tree[1] and len(tree[2]) > 1:
+            subs += [("i", tree[1], (e,)) for e in tree[2]]
+            subs.append(("i", "", tree[2]))
+        return subs
+    groups = list(tree[1])
+    subs = []
+    if k == "x":
+        subs.append(("c", tree[1], tree[2]))
+    elif len(groups) > 1:
+        subs += [("c", (g,), ()) for g in groups]
+    elif len(groups) == 1:
+        g = groups[0]
+        return t_subtrees(g) if g[0] == "i" else [("c", g[1], g[2])]
+    return subs
+
+
+def t_nontrivial(tree):
+    k = tree[0]
+    if k == "e":
+        return bool(tree[2])
+    if k == "i":
+        return bool(tree[1]) or len(tree[2]) > 1 or any(t_nontrivial(e) for e in tree[2])
+    return (k == "x" and bool(tree[3])) or len(tree[1]) > 1 or any(t_nontrivial(g) for g in tree[1])
+
+
+def _tt(x):
+    return tuple(_tt(y) for y in x) if isinstance(x, (list, tuple)) else x
+
+
+def joinable(prev, sep, nxt):
+    """Separators for which the text says how the string splits into parts (see META assumptions)."""
+    if sep == "":
+        if nxt[0] == "x":
+            return prev[0] == "x" or not prev[1]        # 'H2(OH)2', '(OH)2(H2O)'; not '2H2(OH)'
+        return prev[0] == "x" and not nxt[1]            # '(OH)2H', '(OH)H'; never two implicit groups unseparated
+    if sep == " ":
+        return not (prev[0] == "x" and not prev[3] and nxt[0] == "i" and nxt[1])     # not '(HO) 2H'
+    return True
+
+
+def elems(atoms, M):
+    return [("e", a, m) for a in atoms for m in M]
+
+
+def igroups(N, *elem_lists):
+    out = []
+    for n in N:
+        for es in _product(elem_lists):
+            out.append(("i", n, tuple(es)))
+    return out
+
+
+def _product(lists):
+    if not lists:
+        return [()]
+    rest = _product(lists[1:])
+    return [(x,) + r for x in lists[0] for r in rest]
+
+
+def composites(glists, seps):
+    """All joinable sequences g1 sep g2 ... with gi from glists[i]."""
+    out = []
+    def rec(i, groups, used):
+        if i == len(glists):
+            out.append((tuple(groups), tuple(used)))
+            return
+        for g in glists[i]:
+            if i == 0:
+                rec(1, [g], [])
+            else:
+                for sep in seps:
+                    if joinable(groups[-1], sep, g):
+                        rec(i + 1, groups + [g], used + [sep])
+    rec(0, [], [])
+    return out
+
+
+def xgroups(comps, C):
+    return [("x", gs, ss, c) for gs, ss in comps for c in C]
+
+
+def tops(comps):
+    return [("c", gs, ss) for gs, ss in comps]
+
+
+def str_tiers(tier):
+    """[(name, walk operators?, [tree, ...])] - the lists of derivations of the tier, in a fixed order."""
+    q = tier == "quick"
+    M = ("", "2", "0.5") if q else ("", "2", "0.5", "3", "1.5", "10", ".5")
+    N = ("", "2", "0.5", "3") if q else ("", "2", "0.5", "3", "1.5", "10", ".5")
+    C = ("", "2", "0.5") if q else ("", "2", "0.5", "3", "1.5")
+    Mr, Nr, Cr = ("", "2"), ("", "2"), ("", "2", "0.5")            # reduced count alphabets
+    if not q:
+        Mr, Nr = ("", "2", "0.5"), ("", "2", "0.5")
+    E8 = elems(ALL8, M)
+    G1 = igroups(N, E8)                                           # n X m, full product
+    E5 = elems(KINDS5, M)
+    G1k = igroups(N, E5)
+    E4r = elems(KINDS4, Mr)
+    G1r = igroups(Nr, E4r)                                        # reduced single groups
+    G1s = igroups(Nr, elems(KINDS2, Mr))                          # small single groups
+    L = []
+    L.append(("one-element-group", True, tops(composites([G1], ()))))
+    L.append(("two-element-group", False, tops(composites([igroups(N, E8, E8 if q else E5)], ()))))
+    if not q:
+        L.append(("three-element-group", False, tops(composites([igroups(Nr, E4r, E4r, E4r)], ()))))
+    L.append(("two-groups", False, tops(composites([G1k, G1k] if q else [G1, igroups(N, E5)], SEPS3))))
+    L.append(("three-groups", False, tops(composites([G1s, G1s, G1s] if q else [G1r, G1s, G1r], (" ", "+")))))
+    L.append(("paren-one-element", True, tops(composites([xgroups(composites([G1], ()), C)], ()))))
+    L.append(("paren-two-elements", False,
+              tops(composites([xgroups(composites([igroups(N, E4r, E4r)], ()), C)], ()))))
+    L.append(("paren-two-groups", False,
+              tops(composites([xgroups(composites([G1r, G1r], (" ", "+") if q else SEPS3), Cr)], ()))))
+    X1r = xgroups(composites([G1r], ()), Cr)
+    X2s = xgroups(composites([igroups(Nr, elems(KINDS2, Mr), elems(KINDS2, Mr))], ()), Cr)
+    X1s = xgroups(composites([G1s], ()), Cr)
+    bs = ("", " ") if q else ("", " ", "+")
+    L.append(("paren-beside-group", False,
+              tops(composites([X1r, G1r], bs)) + tops(composites([G1r, X1r], bs))
+              + tops(composites([X2s, G1s], bs)) + tops(composites([G1s, X2s], bs))))
+    L.append(("paren-beside-paren", False, tops(composites([X1s, X1s] if q else [X1r, X1r], bs))))
+    inner = composites([X1s, G1s], ("", " ")) + composites([G1s, X1s], ("", " ")) + composites([X1s], ())
+    L.append(("nested-paren", False, tops(composites([xgroups(inner, Cr)], ()))))
+    if not q:
+        inner2 = composites([xgroups(inner, ("", "2"))], ())
+        L.append(("nested-paren-3", False, tops(composites([xgroups(inner2, ("", "0.5"))], ()))))
+    return L
+
+
+def str_cases(tier, alphabet):
+    """Flat list of (tier name, walk?, tree), each distinct text once."""
+    tok = TOK[alphabet]
+    seen = set()
+    out = []
+    for name, walk, trees in str_tiers(tier):
+        for t in trees:
+            text = t_text(t, tok)
+            if text in seen:
+                continue
+            seen.add(text)
+            out.append((name, walk, t))
+    return out
+
+
 class OpModel(explore.Model):
     name = "C02 operator graph"
 
@@ -127,6 +383,34 @@ class OpModel(explore.Model):
 
     def initial(self):
         return [(("base", b[0]),) for b in self.B.items]
+
+    # ---- string derivations
+    def s_text(self, tree):
+        return t_text(tree, TOK[self.alphabet])
+
+    def s_ref(self, tree):
+        return dict((self.B.A[k], v) for k, v in t_count(tree).items())
+
+    def s_wrong(self, tree):
+        """True if the string of this derivation, on its own, is parsed to something else than its weight."""
+        scratch = Acc()
+        try:
+            f = self.B.formula(self.s_text(tree))
+        except Exception:
+            return True
+        self._check_formula(f, self.s_ref(tree), scratch, (("sbase", tree),), "str")
+        return scratch.vcount > 0
+
+    def s_minimal(self, tree):
+        """Smallest sub-derivation that is wrong on its own (the cause class of a wrong string)."""
+        while True:
+            for sub in t_subtrees(tree):
+                sub = sub if sub[0] == "c" else ("c", (sub,), ())
+                if self.s_wrong(sub):
+                    tree = sub
+                    break
+            else:
+                return tree
 
     # ---- reference checks
     def _check_formula(self, f, ref, acc, hist, what):
@@ -163,7 +447,7 @@ class OpModel(explore.Model):
                               "no exception", "%s: %s" % (type(e).__name__, e))
 
     def _viol(self, acc, sig, hist, expected, observed):
-        acc.violation(sig, dict(alphabet=self.alphabet, history=[list(e) for e in hist]),
+        acc.violation(sig, dict(alphabet=self.alphabet, history=[_jtree(tuple(e)) for e in hist]),
                       expected=expected, observed=observed, standalone=self.snippet(hist))
 
     def snippet(self, hist):
@@ -178,6 +462,8 @@ class OpModel(explore.Model):
         code = lambda lab: self.B.items[self.B.index[lab]][1]
         if k == "base":
             return "L.append(%s)" % code(ev[1])
+        if k == "sbase":
+            return "L.append(formula(%r))" % self.s_text(ev[1])
         if k == "addg":
             return "g = %s; L.append(g); L.append(L[%d] + g)" % (code(ev[2]), ev[1])
         if k == "iaddg":
@@ -205,6 +491,8 @@ class OpModel(explore.Model):
             if k == "base":
                 _, _, mk, ref = B.items[B.index[ev[1]]]
                 live.append([mk(), dict(ref), None]); changed = len(live) - 1
+            elif k == "sbase":
+                live.append([B.formula(self.s_text(ev[1])), self.s_ref(ev[1]), None]); changed = len(live) - 1
             elif k == "addg":
                 _, _, mk, ref = B.items[B.index[ev[2]]]
                 g = mk(); live.append([g, dict(ref), g.structure])
@@ -236,13 +524,32 @@ class OpModel(explore.Model):
             else:
                 raise ValueError(ev)
         except Exception as e:
-            if check:
+            if check and k == "sbase":
+                small = self.s_minimal(ev[1])
+                self._viol(acc, "exception:str:%s:%s" % (t_shape(small), type(e).__name__), (("sbase", small),),
+                           "no exception", "%s: %s" % (type(e).__name__, e))
+            elif check:
                 self._viol(acc, "exception:%s:%s" % (k, type(e).__name__), hist,
                            "no exception", "%s: %s" % (type(e).__name__, e))
             return False
         if check:
             for i, (f, ref, snap) in enumerate(live):
-                if i == changed:
+                if i == changed and k == "sbase":
+                    scratch = Acc()
+                    self._check_formula(f, ref, scratch, hist, "str")
+                    if scratch.vcount:
+                        # name the cause: the smallest sub-derivation that is wrong on its own
+                        small = self.s_minimal(ev[1])
+                        h = (("sbase", small),)
+                        g = None
+                        try:
+                            g = B.formula(self.s_text(small))
+                        except Exception as e:
+                            self._viol(acc, "exception:str:%s:%s" % (t_shape(small), type(e).__name__), h,
+                                       "no exception", "%s: %s" % (type(e).__name__, e))
+                        if g is not None:
+                            self._check_formula(g, self.s_ref(small), acc, h, "str:" + t_shape(small))
+                elif i == changed:
                     self._check_formula(f, ref, acc, hist, k)
                 elif snap is not None and not _same_structure(f.structure, snap):
                     self._viol(acc, "operand-changed:" + k, hist,
@@ -303,6 +610,10 @@ class OpModel(explore.Model):
         return [list(e) for e in hist]
 
 
+def _jtree(x):
+    return [_jtree(y) for y in x] if isinstance(x, tuple) else x
+
+
 def _radd(a, b):
     out = dict(a)
     for k, v in b.items():
@@ -337,13 +648,17 @@ class Dfs(object):
         self.seen = set()
 
     def start(self, base_label):
-        hist = (("base", base_label),)
+        return self.start_event(("base", base_label))
+
+    def start_event(self, ev, walk=True):
+        hist = (ev,)
+        v0 = self.acc.vcount
         live = self.m.build(hist, self.acc)
         self.acc.evaluations += 1
         self.acc.states += 1
-        if live is None:
+        if live is None or self.acc.vcount != v0 or not walk:
             return
-        self.walk(hist, live, hash(("root", base_label)))
+        self.walk(hist, live, hash(("root", ev)))
 
     def walk(self, hist, live, hkey):
         m, acc = self.m, self.acc
@@ -391,6 +706,30 @@ def _shard(args):
     return acc
 
 
+def _str_shard(args):
+    """One slice of the string derivations of a tier: parse + oracle; single groups also walk one operator."""
+    tier, alphabet, i, k = args
+    m = OpModel(alphabet, "reduced", (0, 0.5, 1, 2, 3, 2.5))
+    m.depth = 2
+    acc = Acc()
+    d = Dfs(m, acc, 2)
+    cases = str_cases(tier, alphabet)
+    for name, walk, tree in cases[i::k]:
+        d.start_event(("sbase", tree), walk)
+        acc.count("string_derivations")
+        acc.count("strings:" + name)
+        if t_nontrivial(tree):
+            acc.nontrivial += 1
+        acc.outcome("str:" + name)
+    if i == 0:
+        acc.sample(dict(string_examples=[m.s_text(t) for _, _, t in cases[::max(1, len(cases) // 8)]][:8]))
+    return acc
+
+
+def _any_shard(job):
+    return _shard(job[1]) if job[0] == "op" else _str_shard(job[1])
+
+
 def run(ctx):
     plans = []
     B0 = Bases(0)
@@ -408,12 +747,19 @@ def run(ctx):
         labs = [b[0] for b in Bases(alphabet).items]
         for lab in rotate(labs, ctx.seed):
             jobs.append((alphabet, operands, depth, last_ops, [lab], mults))
-    ctx.pmap(_shard, jobs)
-    ctx.acc.traces = ctx.acc.transitions      # every transition executes the real operators
+    # string derivations
+    sjobs = []
+    for alphabet in ((0,) if ctx.quick else (0, 1)):
+        n = len(str_cases(ctx.tier, alphabet))
+        k = max(1, min(n // 1500, 64 if ctx.quick else 256))
+        sjobs += [(ctx.tier, alphabet, i, k) for i in rotate(range(k), ctx.seed)]
+    ctx.pmap(_any_shard, [("op", j) for j in jobs] + [("str", j) for j in sjobs])
+    # every transition executes the real operators, every derivation the real parser
+    ctx.acc.traces = ctx.acc.transitions + ctx.acc.info.get("string_derivations", 0)
     ctx.acc.info["plans"] = [dict(alphabet=p[0], operands=p[1], events_per_path=p[2]) for p in plans]
 
 
 def replay(ctx, case, signature=None):
     m = OpModel(case.get("alphabet", 0))
-    hist = tuple(tuple(e) for e in case["history"])
+    hist = tuple(_tt(e) for e in case["history"])
     m.build(hist, ctx.acc, check_all=True)
